@@ -29,7 +29,14 @@ func verif_contract_decodeName(data []byte, offset int, buffer *[]byte, level in
 	vModifiesObj(buffer)
 	vModifiesBytes((*buffer)[:cap(*buffer)])
 	oldLen := len(*buffer)
+	// completeness (C17), read before the call since the scratch buffer may overlap the message:
+	// the root name is a name wherever it fits in the message (the same clause for a compression pointer needs the
+	// entry value of the scratch buffer in the loop invariant, which the harness language cannot name: seed C17-3)
+	isRoot := level <= maxRecursionLevel && 0 <= offset && offset < len(data) && data[offset] == 0
 	name, next, err := decodeName(data, offset, buffer, level)
+	if isRoot {
+		vEnsures(err == nil && next == offset+1)
+	}
 	vEnsures(len(*buffer) >= oldLen) // the scratch buffer only grows
 	if err == nil {
 		vEnsures(0 <= offset && offset < next)
